@@ -293,3 +293,340 @@ Proof.
     unfold na_subj. apply Forall_forall. intros r Hin Ho. exact (Hinv k s r Hn Hin Ho). }
   destruct (NA_exec o scripts fuel ops2 w1 w2 H2 HP) as [_ Hext]. exact Hext.
 Qed.
+
+(* ---- spec_notify_delivers ------------------------------------------------------------------ *)
+
+Lemma list_set_length : forall {A} (l : list A) k x, length (list_set l k x) = length l.
+Proof.
+  intros A l. induction l as [|h t IH]; intros k x; destruct k; cbn [list_set length]; auto.
+Qed.
+
+Lemma nth_error_list_set_eq : forall {A} (l : list A) k x y,
+  nth_error l k = Some y -> nth_error (list_set l k x) k = Some x.
+Proof.
+  intros A l. induction l as [|h t IH]; intros k x y H; destruct k; cbn [list_set nth_error] in *;
+    try discriminate.
+  - reflexivity.
+  - eapply IH; eassumption.
+Qed.
+
+Lemma list_set_twice : forall {A} (l : list A) k x y, list_set (list_set l k x) k y = list_set l k y.
+Proof.
+  intros A l. induction l as [|h t IH]; intros k x y; destruct k; cbn [list_set]; try reflexivity.
+  f_equal. apply IH.
+Qed.
+
+Lemma list_set_same : forall {A} (l : list A) k x, nth_error l k = Some x -> list_set l k x = l.
+Proof.
+  intros A l. induction l as [|h t IH]; intros k x H; destruct k; cbn [list_set nth_error] in *;
+    try discriminate.
+  - inversion H; subst; reflexivity.
+  - f_equal. apply IH; assumption.
+Qed.
+
+Definition swf (s : asubj) : Prop :=
+  NoDup (map a_sid (subs s)) /\ forall r, In r (subs s) -> a_sid r < acounter s.
+Definition awf (aw : aworld) : Prop := Forall swf (asubjects aw).
+
+Lemma NoDup_map_filter : forall {A B} (g : A -> B) (f : A -> bool) (l : list A),
+  NoDup (map g l) -> NoDup (map g (filter f l)).
+Proof.
+  intros A B g f l. induction l as [|h t IH]; intros H; cbn [filter map] in *.
+  - constructor.
+  - inversion H as [|x xs Hnin Hnd]; subst. destruct (f h); cbn [map].
+    + constructor; [|apply IH; assumption].
+      intro Hin. apply Hnin. apply in_map_iff in Hin. destruct Hin as [y [Hy Hiny]].
+      apply filter_In in Hiny. destruct Hiny as [Hiny _]. apply in_map_iff. exists y; auto.
+    + apply IH; assumption.
+Qed.
+
+Lemma swf_remove : forall s sid, swf s -> swf (aremove s sid).
+Proof.
+  intros s sid [Hnd Hlt]. unfold swf, aremove; cbn [subs acounter]. split.
+  - apply NoDup_map_filter; assumption.
+  - intros r Hin. apply filter_In in Hin. destruct Hin as [Hin _]. apply Hlt; assumption.
+Qed.
+
+Lemma map_sid_cond : forall (c : arec -> bool) (f : arec -> arec) (l : list arec),
+  (forall r, a_sid (f r) = a_sid r) ->
+  map a_sid (map (fun r => if c r then f r else r) l) = map a_sid l.
+Proof.
+  intros c f l Hf. rewrite map_map. apply map_ext. intros r. destruct (c r); [apply Hf | reflexivity].
+Qed.
+
+Lemma swf_cond_map : forall (c : arec -> bool) (f : arec -> arec) l cnt,
+  (forall r, a_sid (f r) = a_sid r) ->
+  swf (mkAS l cnt) -> swf (mkAS (map (fun r => if c r then f r else r) l) cnt).
+Proof.
+  intros c f l cnt Hf [Hnd Hlt]. unfold swf in *; cbn [subs acounter] in *. split.
+  - rewrite map_sid_cond; assumption.
+  - intros r Hin. apply in_map_iff in Hin. destruct Hin as [r0 [Heq Hin0]]. subst r.
+    destruct (c r0); [rewrite Hf|]; apply Hlt; assumption.
+Qed.
+
+Lemma swf_update : forall s sid f, (forall r, a_sid (f r) = a_sid r) -> swf s -> swf (aupdate s sid f).
+Proof.
+  intros s sid f Hf H. unfold aupdate. destruct s as [l cnt]; cbn [subs acounter].
+  apply (swf_cond_map (fun r => a_sid r =? sid)); assumption.
+Qed.
+
+Lemma NoDup_snoc : forall {A} (l : list A) x, NoDup l -> ~ In x l -> NoDup (l ++ [x]).
+Proof.
+  intros A l x. induction l as [|h t IH]; intros Hnd Hnin; cbn [app].
+  - constructor; [intros [] | constructor].
+  - inversion Hnd as [|y ys Hh Ht]; subst. constructor.
+    + intro Hin. apply in_app_or in Hin. destruct Hin as [Hin|[Heq|[]]].
+      * exact (Hh Hin).
+      * apply Hnin. left. symmetry; exact Heq.
+    + apply IH; [assumption|]. intro Hin. apply Hnin. right; exact Hin.
+Qed.
+
+Lemma swf_sub : forall s r, a_sid r = acounter s -> swf s -> swf (mkAS (subs s ++ [r]) (acounter s + 1)).
+Proof.
+  intros s r Hr [Hnd Hlt]. unfold swf; cbn [subs acounter]. split.
+  - rewrite map_app. cbn [map]. apply NoDup_snoc; [assumption|].
+    intro Hin. apply in_map_iff in Hin. destruct Hin as [r0 [Heq Hin0]].
+    pose proof (Hlt r0 Hin0). lia.
+  - intros r0 Hin. apply in_app_or in Hin. destruct Hin as [Hin|[Heq|[]]].
+    + pose proof (Hlt r0 Hin). lia.
+    + subst r0. lia.
+Qed.
+
+Lemma awf_set : forall aw k s' hs n calls,
+  awf aw -> swf s' -> awf (mkAW (list_set (asubjects aw) k s') hs n calls).
+Proof.
+  intros aw k s' hs n calls Hw Hs. unfold awf in *; cbn [asubjects]. apply Forall_list_set; assumption.
+Qed.
+
+Lemma awf_same : forall aw hs n calls, awf aw -> awf (mkAW (asubjects aw) hs n calls).
+Proof. intros aw hs n calls H. exact H. Qed.
+
+Lemma awf_nth : forall aw k s, awf aw -> nth_error (asubjects aw) k = Some s -> swf s.
+Proof. intros aw k s Hw Hn. exact (Forall_nth_error _ _ _ _ Hw Hn). Qed.
+
+Lemma awf_unsubscribe : forall aw k sid h, awf aw -> awf (a_unsubscribe aw k sid h).
+Proof.
+  intros aw k sid h Hw. unfold a_unsubscribe.
+  destruct (nth_error (asubjects aw) k) as [s|] eqn:Hn; [|exact Hw].
+  apply awf_set; [assumption|]. apply swf_remove. eapply awf_nth; eassumption.
+Qed.
+
+Lemma awf_update : forall aw k s sid f,
+  (forall r, a_sid (f r) = a_sid r) -> nth_error (asubjects aw) k = Some s ->
+  awf aw -> awf (aset aw k (aupdate s sid f)).
+Proof.
+  intros aw k s sid f Hf Hn Hw. unfold aset. apply awf_set; [assumption|].
+  apply swf_update; [assumption|]. eapply awf_nth; eassumption.
+Qed.
+
+Section WfRec.
+  Variable scripts : list (list action).
+  Variable rec : aworld -> nat -> Z -> res aworld.
+  Hypothesis Hrec : forall aw k arg aw', rec aw k arg = Ok aw' -> awf aw -> awf aw'.
+
+  Lemma awf_do_action : forall self w a w',
+    a_do_action rec self w a = Ok w' -> awf w -> awf w'.
+  Proof.
+    intros self w a w' H Hw. destruct a; cbn [a_do_action] in H.
+    - destruct (aget w k) as [s|] eqn:Hg; [|inversion H; subst; exact Hw].
+      inversion H; subst w'; clear H. apply aget_some in Hg.
+      apply awf_set; [assumption|]. apply swf_sub; [reflexivity|]. eapply awf_nth; eassumption.
+    - destruct (ahandle_target w h) as [[[k sid] r]|]; inversion H; subst; [|exact Hw].
+      apply awf_unsubscribe; assumption.
+    - destruct (ahandle_target w h) as [[[k sid] r]|]; [|inversion H; subst; exact Hw].
+      destruct (nth_error (asubjects w) k) as [s|] eqn:Hn; [|inversion H; subst; exact Hw].
+      inversion H; subst; clear H. apply awf_update; [reflexivity | assumption | assumption].
+    - destruct (ahandle_target w h) as [[[k sid] r]|]; [|inversion H; subst; exact Hw].
+      destruct (nth_error (asubjects w) k) as [s|] eqn:Hn; [|inversion H; subst; exact Hw].
+      inversion H; subst; clear H. apply awf_update; [reflexivity | assumption | assumption].
+    - destruct (ahandle_target w h) as [[[k sid] r]|]; [|inversion H; subst; exact Hw].
+      destruct (nth_error (asubjects w) k) as [s|] eqn:Hn; [|inversion H; subst; exact Hw].
+      inversion H; subst; clear H. apply awf_update; [reflexivity | assumption | assumption].
+    - destruct self as [o'|]; [|inversion H; subst; exact Hw].
+      inversion H; subst; clear H. unfold awf in *; cbn [asubjects].
+      apply Forall_map. eapply Forall_impl; [|exact Hw].
+      intros s Hs. destruct s as [l cnt]; cbn [subs acounter].
+      apply (swf_cond_map (fun r => Nat.eqb (a_obs r) o')); [reflexivity | assumption].
+    - destruct (aget w k) as [s|]; [|inversion H; subst; exact Hw].
+      eapply Hrec; eassumption.
+  Qed.
+
+  Lemma awf_run_script : forall self acts w w',
+    a_run_script rec self w acts = Ok w' -> awf w -> awf w'.
+  Proof.
+    intros self acts. induction acts as [|a rest IH]; intros w w' H Hw; cbn [a_run_script] in H.
+    - inversion H; subst; exact Hw.
+    - apply bind_ok in H. destruct H as [w1 [H1 H2]].
+      eapply IH; [exact H2|]. eapply awf_do_action; eassumption.
+  Qed.
+
+  Lemma awf_round : forall k arg snap w w',
+    a_round scripts rec w k arg snap = Ok w' -> awf w -> awf w'.
+  Proof.
+    intros k arg snap. induction snap as [|sid rest IH]; intros w w' H Hw; cbn [a_round] in H.
+    - inversion H; subst; exact Hw.
+    - destruct (nth_error (asubjects w) k) as [s|] eqn:Hn; [|discriminate].
+      destruct (afind s sid) as [r|] eqn:Hf; [|eapply IH; eassumption].
+      apply bind_ok in H. destruct H as [w1 [H1 H2]].
+      assert (Hw1 : awf w1).
+      { destruct (a_valid r && negb (a_muted r)).
+        - eapply awf_run_script; [exact H1|]. apply awf_same; exact Hw.
+        - inversion H1; subst; exact Hw. }
+      clear H1.
+      destruct (nth_error (asubjects w1) k) as [s1|] eqn:Hn1; [|discriminate].
+      destruct (afind s1 sid) as [r1|]; [|eapply IH; eassumption].
+      destruct (a_valid r1); [eapply IH; eassumption|].
+      eapply IH; [exact H2|]. unfold aset. apply awf_set; [assumption|].
+      apply swf_remove. eapply awf_nth; eassumption.
+  Qed.
+
+  Lemma awf_notify_body : forall w k arg w',
+    a_notify_body scripts rec w k arg = Ok w' -> awf w -> awf w'.
+  Proof.
+    intros w k arg w' H Hw. unfold a_notify_body in H.
+    destruct (nth_error (asubjects w) k) as [s|]; [|discriminate].
+    eapply awf_round; eassumption.
+  Qed.
+End WfRec.
+
+Lemma awf_notify : forall scripts fuel w k arg w',
+  a_notify scripts fuel w k arg = Ok w' -> awf w -> awf w'.
+Proof.
+  intros scripts fuel. induction fuel as [|f IH]; intros w k arg w' H.
+  - discriminate.
+  - rewrite a_notify_S in H. eapply awf_notify_body; [exact IH | exact H].
+Qed.
+
+Lemma awf_step : forall scripts fuel w op w' ret,
+  a_step scripts fuel w op = Ok (w', ret) -> awf w -> awf w'.
+Proof.
+  intros scripts fuel w op w' ret H Hw. destruct op as [a|k h|d s|k]; cbn [a_step] in H.
+  - apply bind_ok in H. destruct H as [w1 [H1 H2]]. inversion H2; subst.
+    eapply awf_do_action; [apply awf_notify | exact H1 | exact Hw].
+  - destruct (ahandle_target w h) as [[[k' sid] r]|].
+    + destruct (Nat.eqb k k'); inversion H; subst; [apply awf_unsubscribe; assumption | exact Hw].
+    + inversion H; subst; exact Hw.
+  - destruct (nth_error (ahandles w) d) as [hd|]; [|discriminate].
+    destruct (nth_error (ahandles w) s) as [hs|]; [|discriminate].
+    destruct (Nat.eqb d s); inversion H; subst; [exact Hw|]. apply awf_same; exact Hw.
+  - destruct (nth_error (asubjects w) k) as [s|]; [|discriminate].
+    inversion H; subst. unfold aset. apply awf_set; [assumption|].
+    split; cbn [subs map]; [constructor | intros r []].
+Qed.
+
+Lemma awf_exec : forall scripts fuel ops w w',
+  a_exec scripts fuel w ops = Some w' -> awf w -> awf w'.
+Proof.
+  intros scripts fuel ops. induction ops as [|op rest IH]; intros w w' H Hw; cbn [a_exec] in H.
+  - inversion H; subst; exact Hw.
+  - destruct (negb (a_refs_ok w op)); [eapply IH; eassumption|].
+    destruct (a_step scripts fuel w op) as [[w1 ret]|e] eqn:Hs; [|discriminate].
+    eapply IH; [exact H|]. eapply awf_step; eassumption.
+Qed.
+
+Lemma awf_world0 : forall n, awf (aworld0 n).
+Proof.
+  intros n. unfold awf, aworld0; cbn [asubjects]. apply Forall_forall. intros s Hin.
+  apply repeat_spec in Hin. subst s. split; cbn [subs map]; [constructor | intros r []].
+Qed.
+
+(* the loop of one notification round over subscriptions whose scripts are empty *)
+
+Lemma find_sid_app : forall (pre todo : list arec) r,
+  ~ In (a_sid r) (map a_sid pre) ->
+  find (fun x => a_sid x =? a_sid r) (pre ++ r :: todo) = Some r.
+Proof.
+  intros pre todo r. induction pre as [|h t IH]; intros Hnin; cbn [app find].
+  - rewrite Z.eqb_refl. reflexivity.
+  - cbn [map] in Hnin. destruct (a_sid h =? a_sid r) eqn:He.
+    + apply Z.eqb_eq in He. exfalso. apply Hnin. left. exact He.
+    + apply IH. intro Hin. apply Hnin. right. exact Hin.
+Qed.
+
+Lemma filter_sid_notin : forall (l : list arec) sid,
+  ~ In sid (map a_sid l) -> filter (fun x => negb (a_sid x =? sid)) l = l.
+Proof.
+  intros l sid. induction l as [|h t IH]; intros Hnin; cbn [filter].
+  - reflexivity.
+  - cbn [map] in Hnin. destruct (a_sid h =? sid) eqn:He.
+    + apply Z.eqb_eq in He. exfalso. apply Hnin. left. exact He.
+    + cbn [negb]. f_equal. apply IH. intro Hin. apply Hnin. right. exact Hin.
+Qed.
+
+Lemma filter_sid_remove : forall (pre todo : list arec) r,
+  ~ In (a_sid r) (map a_sid pre) -> ~ In (a_sid r) (map a_sid todo) ->
+  filter (fun x => negb (a_sid x =? a_sid r)) (pre ++ r :: todo) = pre ++ todo.
+Proof.
+  intros pre todo r Hp Ht. rewrite filter_app. cbn [filter]. rewrite Z.eqb_refl. cbn [negb].
+  rewrite (filter_sid_notin pre _ Hp), (filter_sid_notin todo _ Ht). reflexivity.
+Qed.
+
+Definition a_live (r : arec) : bool := a_valid r && negb (a_muted r).
+
+Section Loop.
+  Variable scripts : list (list action).
+  Variable rec : aworld -> nat -> Z -> res aworld.
+  Variable k : nat.
+  Variable arg : Z.
+
+  Lemma round_loop : forall todo pre subj hs n calls c,
+    NoDup (map a_sid (pre ++ todo)) ->
+    (forall r, In r todo -> nth (a_script r) scripts [] = []) ->
+    nth_error subj k = Some (mkAS (pre ++ todo) c) ->
+    a_round scripts rec (mkAW subj hs n calls) k arg (map a_sid todo) =
+    Ok (mkAW (list_set subj k (mkAS (pre ++ filter a_valid todo) c)) hs n
+             (rev (map (fun r => (a_obs r, arg)) (filter a_live todo)) ++ calls)).
+  Proof.
+    intros todo. induction todo as [|r todo IH]; intros pre subj hs n calls c Hnd Hscr Hn.
+    - cbn [map a_round filter rev app]. rewrite list_set_same; [reflexivity | exact Hn].
+    - cbn [map a_round asubjects]. rewrite Hn.
+      assert (Hnin : ~ In (a_sid r) (map a_sid pre) /\ ~ In (a_sid r) (map a_sid todo)).
+      { rewrite map_app in Hnd. cbn [map] in Hnd. apply NoDup_remove_2 in Hnd.
+        split; intro Hin; apply Hnd; apply in_or_app; [left | right]; exact Hin. }
+      destruct Hnin as [Hnp Hnt].
+      assert (Hfind : afind (mkAS (pre ++ r :: todo) c) (a_sid r) = Some r).
+      { unfold afind; cbn [subs]. apply find_sid_app; exact Hnp. }
+      rewrite Hfind.
+      assert (Hnd' : NoDup (map a_sid ((pre ++ [r]) ++ todo))).
+      { rewrite <- app_assoc. exact Hnd. }
+      assert (Hscr' : forall r0, In r0 todo -> nth (a_script r0) scripts [] = []).
+      { intros r0 Hin. apply Hscr. right; exact Hin. }
+      assert (Hn' : nth_error subj k = Some (mkAS ((pre ++ [r]) ++ todo) c)).
+      { rewrite <- app_assoc. exact Hn. }
+      cbn [filter]. change (a_live r) with (a_valid r && negb (a_muted r)).
+      destruct (a_valid r) eqn:Hv; cbn [andb].
+      + destruct (a_muted r) eqn:Hm; cbn [negb].
+        * cbn [bind asubjects]. rewrite Hn, Hfind, Hv.
+          rewrite (IH (pre ++ [r]) subj hs n calls c Hnd' Hscr' Hn').
+          rewrite <- app_assoc. reflexivity.
+        * rewrite (Hscr r (or_introl eq_refl)). cbn [a_run_script bind asubjects ahandles anext acalls].
+          rewrite Hn, Hfind, Hv.
+          rewrite (IH (pre ++ [r]) subj hs n ((a_obs r, arg) :: calls) c Hnd' Hscr' Hn').
+          rewrite <- app_assoc. cbn [map rev app]. rewrite <- app_assoc. reflexivity.
+      + cbn [bind asubjects]. rewrite Hn, Hfind, Hv.
+        unfold aset, aremove; cbn [asubjects ahandles anext acalls subs acounter].
+        rewrite (filter_sid_remove pre todo r Hnp Hnt).
+        assert (Hnd2 : NoDup (map a_sid (pre ++ todo))).
+        { rewrite map_app in *. cbn [map] in Hnd. eapply NoDup_remove_1; exact Hnd. }
+        rewrite (IH pre (list_set subj k (mkAS (pre ++ todo) c)) hs n calls c Hnd2 Hscr').
+        * rewrite list_set_twice. reflexivity.
+        * eapply nth_error_list_set_eq; exact Hn.
+  Qed.
+End Loop.
+
+Lemma spec_notify_delivers : forall scripts fuel fuel' nsubj ops w k s arg,
+  a_exec scripts fuel (aworld0 nsubj) ops = Some w ->
+  nth_error (asubjects w) k = Some s ->
+  (forall r, In r (subs s) -> nth (a_script r) scripts [] = []) ->
+  a_notify scripts (S fuel') w k arg =
+    Ok (mkAW (list_set (asubjects w) k (mkAS (filter a_valid (subs s)) (acounter s))) (ahandles w) (anext w)
+             (rev (map (fun r => (a_obs r, arg)) (filter (fun r => a_valid r && negb (a_muted r)) (subs s)))
+              ++ acalls w)).
+Proof.
+  intros scripts fuel fuel' nsubj ops w k s arg Hex Hn Hscr.
+  assert (Hw : awf w). { eapply awf_exec; [exact Hex | apply awf_world0]. }
+  pose proof (awf_nth _ _ _ Hw Hn) as [Hnd _].
+  rewrite a_notify_S. unfold a_notify_body. rewrite Hn.
+  destruct w as [subj hs n calls]. destruct s as [l c]. cbn [asubjects ahandles anext acalls subs acounter] in *.
+  exact (round_loop scripts (a_notify scripts fuel') k arg l [] subj hs n calls c Hnd Hscr Hn).
+Qed.
